@@ -355,6 +355,10 @@ MINTER_MC = dict(module="MC_Minter.tla", cfg="MC_Minter.cfg", timeout=2400, quic
 MINTER_SIM = dict(module="MC_Minter.tla", cfg="MC_MinterSim.cfg", family="minter", num=(10, 150), depth=400, timeout=6000,
                   quick={"MaxLen": "90"}, thorough={"MaxLen": "120"}, script_cfg="cfg_minter.json")
 
+# the whole bridge: hub + real contract bytecode (ethereum) + Minter multisig model + real connectors, in one behaviour
+FULL_SIM = dict(module="MC_Full.tla", cfg="MC_FullSim.cfg", family="minter", num=(6, 80), depth=500, timeout=6000,
+                quick={"MaxLen": "110"}, thorough={"MaxLen": "140"}, script_cfg="cfg_full.json", script_extra={"evm": "ethereum"})
+
 # the Minter loop as a plan of its own (used by C20 next to its vector checks)
 MINTER_LOOP = dict(mc=[MINTER_MC], sim=[MINTER_SIM], static=["minter*.ndjson"],
                    watch=["C20:", "conf:resync", "conf:relay"],
@@ -370,7 +374,7 @@ EVMBSC_SIM = dict(module="MC_Evm.tla", cfg="MC_EvmSimBsc.cfg", family="evm", num
                   quick={"MaxLen": "90"}, thorough={"MaxLen": "120"}, script_cfg="cfg_evm_bsc.json", script_extra={"evm": "bsc"})
 
 PROPS = {
-    "C08": dict(mc=[EVM_MC, EVM2_MC, MINTER_MC], sim=[EVM_SIM, EVM2_SIM, EVMBSC_SIM, MINTER_SIM], static=["evm*.ndjson", "minter*.ndjson"],
+    "C08": dict(mc=[EVM_MC, EVM2_MC, MINTER_MC], sim=[EVM_SIM, EVM2_SIM, EVMBSC_SIM, MINTER_SIM, FULL_SIM], static=["evm*.ndjson", "minter*.ndjson"],
                 watch=["C08:", "C07:CheckpointAgrees", "C13:WithdrawnBatchExecuted", "conf:ss", "conf:sigs", "conf:loss", "conf:lon", "conf:relay"],
                 need={"EvmUpdateValset/ok": 3, "EvmUpdateValset/revert": 3, "EvmSubmitBatch/ok": 2, "EvmSubmitBatch/revert": 2, "EvmDeposit/ok": 5, "Claim/ok": 20,
                       "ConnValsets/ok": 10, "ConnBatches/ok": 3, "ConnScan/ok": 10}),
@@ -389,7 +393,7 @@ PROPS = {
     "C17": dict(mc=[VALSET_MC], enum=[REGISTRY_ENUM], sim=[VALSET_SIM], static=["valset*.ndjson"],
                 watch=["C17:", "conf:keys"],
                 need={"SetKeys/ok": 3, "SetKeys/err": 3}),
-    "C01": dict(mc=[ECON_MC, GOV_MC], sim=[ECON_SIM, ECON2_SIM, GOV_SIM, EVM_SIM, MINTER_SIM], static=["econ*.ndjson", "minter*.ndjson", "gov*.ndjson"],
+    "C01": dict(mc=[ECON_MC, GOV_MC], sim=[ECON_SIM, ECON2_SIM, GOV_SIM, EVM_SIM, MINTER_SIM, FULL_SIM], static=["econ*.ndjson", "minter*.ndjson", "gov*.ndjson"],
                 watch=["C01:", "conf:bal", "conf:sup", "C08:MinterTxMatches"],
                 need={"ExtDeposit/ok": 3, "Claim/ok": 6, "End/ok": 3, "Send/ok": 5}),
     "C02": dict(mc=[ATTEST_MC], sim=[ATTEST_SIM, ECON_SIM], static=["attest*.ndjson"],
